@@ -218,7 +218,7 @@ def run(ctx):
     # ---------------- the CLI
     cli = vlib.cli_bin()
     tc, ac = ctx.path("trace-cli.ndjson"), ctx.path("anomalies-cli.ndjson")
-    rc, out, wall = vlib.sh([b, "cli", ip, tc, "cli=" + cli, "anomalies=" + ac, "max=%d" % (100 if q else 1200), "cmds=%d" % (5 if q else 8), "threads=4",
+    rc, out, wall = vlib.sh([b, "cli", ip, tc, "cli=" + cli, "anomalies=" + ac, "max=%d" % (100 if q else 600), "cmds=%d" % (5 if q else 8), "threads=4",
                              "seed=%d" % ctx.seed, "tmp=" + ctx.work], timeout=6000)
     sc = json.loads(out.strip().splitlines()[-1])
     per_cmd = sc.pop("per_cmd")
